@@ -715,7 +715,9 @@ def main2(tier, t0, progs, nat):
         lengths, range_lengths = list(range(0, 6)), [0, 1, 2, 3]
         SECOND["every"] = 300
     else:
-        nmax = int(os.environ.get("VERIF_C20_N", "6"))
+        # measured (3 jobs, loaded machine): N=6 27 073 paths / 320 s, N=7 86 847 paths / 1 088 s (49 CPU-minutes)
+        jobs = int(os.environ.get("VERIF_JOBS", "16"))
+        nmax = int(os.environ.get("VERIF_C20_N", "7" if jobs >= 8 else "6"))
         lengths, range_lengths = list(range(0, nmax + 1)), [0, 1, 2, 3, 4]
         SECOND["every"] = 1000
     bodies = make_bodies(progs, lengths, range_lengths)
